@@ -86,6 +86,11 @@ const MATE_IN_ONE: &[&str] = &[
     // a quiet mate in one while every capture loses to a capturing mate (captures are searched first)
     "6k1/5ppp/8/1p6/P5q1/8/5PPP/3R2K1 w - - 0 30",
     "3r2k1/5ppp/8/p5Q1/1P6/8/5PPP/6K1 b - - 0 30",
+    // the only legal moves are captures (of a pawn / of a piece): every stage of the root's move ordering must still try them
+    "k7/8/8/8/8/5n2/6p1/7K w - - 0 1",
+    "k1b5/1P1N4/1K6/8/8/8/8/8 b - - 0 1",
+    "7k/8/8/8/8/8/5nr1/7K w - - 0 1",
+    "7k/5NR1/8/8/8/8/8/K7 b - - 0 1",
     // stalemate tricks and under-promotion mates
     "5k2/5P2/5K2/8/8/8/8/8 w - - 0 1",
     "7k/5P2/6K1/8/8/8/8/8 w - - 0 1",
@@ -151,6 +156,17 @@ pub fn run(out: &mut dyn Write, rng: &mut Rng, n: usize, k_max: u64) {
             // terminal roots: also far beyond the 16-bit depth counter
             for k in [65_535u64, 65_536, 65_537, 70_000] {
                 line(out, b, k);
+            }
+        }
+    }
+    // roots whose whole tree ends one ply down (half-move clock 99, a single quiet move): every deepening pass completes at once,
+    // so without expiry the depth counter runs through all its 65536 values (about 200 000 polls). Thorough tier only (the model
+    // needs minutes for it); shard 0 only.
+    let shard: u64 = std::env::var("VERIF_SHARD").ok().and_then(|s| s.parse().ok()).unwrap_or(0);
+    if shard == 0 && k_max >= 3000 {
+        for s in ["k7/8/1K6/8/8/8/8/8 b - - 99 80", "8/8/8/8/8/1k6/8/K7 w - - 99 80"] {
+            if let Ok(b) = s.parse::<Board>() {
+                line(out, &b, 400_000);
             }
         }
     }
